@@ -814,7 +814,10 @@ def _semantic_mutators(ctx, mdl, PathC):
     those of the new segment list (None on an empty path).  -> {method label: [problems]} (missing: not decided)"""
     own = getattr(PathC, 'own_methods', PathC.methods)
     cases = []
-    for n, idx in ((3, 0), (3, 1), (3, 2), (3, -1), (3, -3), (1, 0), (1, -1)):
+    shapes = [(3, 0), (3, 1), (3, 2), (3, -1), (3, -3), (1, 0), (1, -1)]
+    if ctx.tier == 'thorough':
+        shapes += [(2, 0), (2, 1), (2, -1), (2, -2), (4, 0), (4, 1), (4, 2), (4, 3), (4, -1), (4, -2), (4, -4), (3, -2)]
+    for n, idx in shapes:
         cases.append(('__setitem__', n, (idx, 'NEW')))
         cases.append(('__delitem__', n, (idx,)))
     cases += [('__setitem__', 3, (slice(0, 1), ['NEW'])), ('__setitem__', 3, (slice(2, 3), ['NEW'])), ('__setitem__', 3, (slice(None), ['NEW'])),
